@@ -150,7 +150,7 @@ func main() {
 	wdir := *work
 	if wdir == "" {
 		wdir, _ = os.MkdirTemp("", "govc-")
-		defer os.RemoveAll(wdir)
+		tmpWork = wdir
 	}
 	cfg := &SolverCfg{Dir: wdir, FirstMS: 10000, RaceMS: 10000, CoverMS: 4000, HeadMS: 1500, Workers: 16, Seed: seed}
 	if *tier == "thorough" {
@@ -165,8 +165,14 @@ func main() {
 	if *evidence != "" {
 		rep.writeEvidence(*evidence, strings.Join(os.Args, " "))
 	}
+	if tmpWork != "" {
+		os.RemoveAll(tmpWork)
+	}
 	os.Exit(rep.Exit)
 }
+
+// tmpWork: scratch directory created by this run (removed before exit; os.Exit skips defers)
+var tmpWork string
 
 type Report struct {
 	Prop, Tier string
@@ -349,6 +355,52 @@ func (e *Engine) report(prop, tier string, seed int, results []*FuncResult, obls
 		fmt.Printf("  FAIL %s [%s] status=%s solver=%s: %s\n", o.Name, o.Where, o.Status, o.Solver, o.Clause)
 		fmt.Printf("VIOLATION property=%s replay=%s%s\n", prop, path, suffix)
 	}
+	// rejected: obligations that were discharged on the unchanged tree (baseline) and cannot even be
+	// generated or reached any more. The verifier does not accept the tree: reported like a failed
+	// obligation (no input), never silently passed. Functions that were never decided stay UNDECIDED.
+	reject := func(name, reason string) {
+		if updateBaseline {
+			return
+		}
+		for _, k := range known {
+			if k.Status == "open" && k.Property == prop && strings.HasPrefix(name, k.Obligation) {
+				return
+			}
+		}
+		rep.Violations++
+		path := ""
+		if replayDir != "" {
+			d := filepath.Join(replayDir, prop)
+			os.MkdirAll(d, 0o755)
+			path = filepath.Join(d, safeName(name)+".json")
+			b, _ := json.MarshalIndent(map[string]any{"property": prop, "obligation": name, "status": "rejected", "solver": "none",
+				"solver_output": reason, "clause": "obligations discharged on the unchanged tree can no longer be generated from the current tree",
+				"where": ""}, "", " ")
+			os.WriteFile(path, b, 0o644)
+		}
+		fmt.Printf("  FAIL %s [] status=rejected solver=none: %s\n", name, reason)
+		fmt.Printf("VIOLATION property=%s replay=%s no-failing-input-found\n", prop, path)
+	}
+	for _, r := range results {
+		if r.Outside == "" || r.Trust {
+			continue
+		}
+		inBase := false
+		for _, n := range base.Obligations[prop] {
+			if strings.HasPrefix(n, r.Key+"/") || strings.HasPrefix(n, "lemma."+r.Key+"/") {
+				inBase = true
+				break
+			}
+		}
+		if inBase {
+			reject(r.Key+"/generation", r.Outside)
+		}
+	}
+	for _, u := range rep.Undecided {
+		if i := strings.Index(u, ": baseline obligation no longer generated"); i > 0 {
+			reject(u[:i], "baseline obligation no longer generated (the function was restructured so that the contract clause has no counterpart)")
+		}
+	}
 	for _, b := range rep.Broken {
 		fmt.Fprintf(os.Stderr, "BROKEN-CHECK property=%s %s\n", prop, b)
 	}
@@ -363,6 +415,7 @@ func (e *Engine) report(prop, tier string, seed int, results []*FuncResult, obls
 			if !has(base.Unreachable[prop], u) {
 				rep.Undecided = append(rep.Undecided, u+": path is unreachable (it was reachable on the unchanged tree)")
 				fmt.Printf("UNDECIDED property=%s %s path became unreachable\n", prop, u)
+				reject(u, "a path that was reachable on the unchanged tree is unreachable now: the obligations behind it hold vacuously")
 			}
 		}
 	}
